@@ -11,7 +11,7 @@ for line in open(conf):
     pid, src, k, js = m.groups()
     res = json.loads(js)
     if not res.get('ok'): continue
-    rnd = '1' if 'seeds1' in src else ('p' if 'ported' in src else ('3' if 'mut3' in src else ('4' if 'mut4' in src else ('5' if 'mut5' in src else ('6' if 'mut6' in src else ('7' if 'mut7' in src else '2'))))))
+    rnd = '1' if 'seeds1' in src else ('p' if 'ported' in src else ('3' if 'mut3' in src else ('4' if 'mut4' in src else ('5' if 'mut5' in src else ('6' if 'mut6' in src else ('7' if 'mut7' in src else ('8' if 'mut8' in src else '2')))))))
     name = f'{pid}-r{rnd}v{k}'
     d = os.path.join(out, name)
     os.makedirs(d, exist_ok=True)
